@@ -4,7 +4,7 @@
     [m] the mapping of the configured storage layout (C11's subject).
     Three former known classes are repaired in /repo and no longer excluded:
     root-named-extensions (38fe584), stale-id-path-cache (4564259) and
-    layout-path-occupied (01aa490). *)
+    layout-path-occupied (01aa490, 3802aa0). *)
 From Rocfl Require Import Base.Bytes Generated.Consts Model.Listing Model.KnownC19
   Proofs.ListingFacts Proofs.ListingWalkFacts Proofs.ListingGetFacts Proofs.ListingHandle Proofs.ListingWitness.
 From Coq Require Import Permutation.
@@ -88,12 +88,11 @@ Theorem C19_get_by_layout_path : forall m t i,
 Proof. exact get_by_layout_path_lemma. Qed.
 Print Assumptions C19_get_by_layout_path.
 
-(** a path inside another object is NotFound unless it holds an inventory file (the classifier) *)
-Theorem C19_get_inside_object : forall t i p,
-  nested_in_object t p = true -> c19_layout_path_inside_object t p = false ->
-  get_inventory_by_path t i p = NotFound.
-Proof. exact get_inside_object. Qed.
-Print Assumptions C19_get_inside_object.
+(** nothing inside another object is ever taken for an object (3802aa0) *)
+Theorem C19_inside_object_not_found : forall t i p,
+  nested_in_object t p = true -> get_inventory_by_path t i p = NotFound.
+Proof. exact get_by_path_nested. Qed.
+Print Assumptions C19_inside_object_not_found.
 
 Theorem C19_free_path_not_object : forall t p, lookup_path t p = None -> object_like t p = false.
 Proof. exact object_like_free. Qed.
@@ -209,25 +208,19 @@ Theorem C19_known_id_needs_escape_refuted :
 Proof. exact (conj w_esc_wf w_esc_facts). Qed.
 Print Assumptions C19_known_id_needs_escape_refuted.
 
-Theorem C19_known_layout_path_inside_object_refuted :
-  ~ In (b "a/b/v1") (committed_ids w_good) /\
-  c19_layout_path_inside_object w_good [b "a"; b "b"; b "v1"] = true /\
-  get_inventory_by_path w_good (b "a/b/v1") [b "a"; b "b"; b "v1"] = Corrupt /\
-  c19_layout_path_inside_object w_good [b "a"; b "b"; b "v2"] = false /\
-  get_inventory_by_path w_good (b "a/b/v2") [b "a"; b "b"; b "v2"] = NotFound.
-Proof. exact w_inside_facts. Qed.
-Print Assumptions C19_known_layout_path_inside_object_refuted.
-
 (** The three repaired classes, as examples of the theorems above, each with a
     historical note: the definitions [walk_before_fix] / [purge_cache_before_fix] /
     [get_inventory_by_path_before_fix] are the code before 38fe584 / 4564259 /
-    01aa490 and violated the property. *)
+    01aa490 + 3802aa0 and violated the property. *)
 Example C19_repaired_layout_path_occupied :
   ~ In (b "extensions") (committed_ids w_good) /\
   object_like w_good [b "extensions"] = false /\
   get_inventory_by_path w_good (b "extensions") [b "extensions"] = NotFound /\
   get_inventory_by_path w_good (b "0=ocfl_1.1") [b "0=ocfl_1.1"] = NotFound /\
   get_inventory_by_path w_good (b "a") [b "a"] = NotFound /\
+  nested_in_object w_good [b "a"; b "b"; b "v1"] = true /\
+  object_like w_good [b "a"; b "b"; b "v1"] = true /\
+  get_inventory_by_path w_good (b "a/b/v1") [b "a"; b "b"; b "v1"] = NotFound /\
   fst (get_inventory (Some (fun i => [i])) [] w_good (b "extensions")) = NotFound /\
   get_inventory_by_path w_good (b "one") [b "a"; b "b"] = Found [b "a"; b "b"] (b "one") /\
   get_inventory_by_path w_good (b "zzz") [b "a"; b "b"] = Corrupt.
@@ -236,7 +229,8 @@ Proof. exact w_occupied_facts. Qed.
 Example C19_history_layout_path_occupied_before_fix :
   get_inventory_by_path_before_fix w_good (b "extensions") [b "extensions"] = GenErr /\
   get_inventory_by_path_before_fix w_good (b "0=ocfl_1.1") [b "0=ocfl_1.1"] = GenErr /\
-  get_inventory_by_path_before_fix w_good (b "a") [b "a"] = GenErr.
+  get_inventory_by_path_before_fix w_good (b "a") [b "a"] = GenErr /\
+  get_inventory_by_path_before_fix w_good (b "a/b/v1") [b "a"; b "b"; b "v1"] = Corrupt.
 Proof. exact w_occupied_before_fix. Qed.
 
 Example C19_repaired_root_named_extensions :
